@@ -229,7 +229,15 @@ func LoadTrace(path string) (*Trace, error) {
 // Replay executes a recorded trace against a fresh chain with the given
 // monitors. Messages are decoded afresh (handlers mutate their requests).
 func Replay(tr *Trace, prof *Profile, fail FailFunc, mons ...Monitor) *World {
+	return ReplayHook(tr, prof, fail, nil, mons...)
+}
+
+// ReplayHook is Replay with a callback run once the chain exists and before the first step.
+func ReplayHook(tr *Trace, prof *Profile, fail FailFunc, hook func(w *World), mons ...Monitor) *World {
 	w := NewWorld(nil, tr.Genesis, prof, fail, mons...)
+	if hook != nil {
+		hook(w)
+	}
 	for _, s := range tr.Steps {
 		switch s.Kind {
 		case "block", "restart":
